@@ -36,6 +36,8 @@ func main() {
 		for _, w := range info.Warnings {
 			fmt.Println("warning:", w)
 		}
+	case "selftest":
+		os.Exit(doSelftest(os.Args[2:]))
 	case "warm":
 		// build everything once so that the go build cache is hot
 		os.Exit(doWarm())
